@@ -293,6 +293,13 @@ class VDict:
         return DICT(self.key, self.val)
 
 
+class VDictItems:
+    """d.items(): iterated like the key set (an unknown enumeration without repetition), yielding (key, value) pairs"""
+
+    def __init__(self, d):
+        self.d = d
+
+
 class VSet:
     def __init__(self, key, dom):
         self.key, self.dom = key, dom
